@@ -670,6 +670,19 @@ class Interp:
             return vstr(out)
         if fn == "core::hint::must_use" and args:
             return args[0]
+        if fn.startswith("core::char::methods::<impl char>::") and d and d[0].k == "char":
+            ch = d[0].v
+            preds = {"is_ascii": ord(ch) < 128, "is_ascii_alphanumeric": ord(ch) < 128 and ch.isalnum(), "is_ascii_alphabetic": ord(ch) < 128 and ch.isalpha(),
+                     "is_ascii_digit": ch in "0123456789", "is_ascii_lowercase": "a" <= ch <= "z", "is_ascii_uppercase": "A" <= ch <= "Z",
+                     "is_ascii_punctuation": ord(ch) < 128 and not ch.isalnum() and not ch.isspace() and ch.isprintable(), "is_ascii_hexdigit": ch in "0123456789abcdefABCDEF",
+                     "is_alphanumeric": ch.isalnum(), "is_alphabetic": ch.isalpha(), "is_numeric": ch.isnumeric(), "is_whitespace": ch.isspace(), "is_ascii_whitespace": ch in " \t\n\x0c\r",
+                     "is_lowercase": ch.islower(), "is_uppercase": ch.isupper()}
+            if m in preds:
+                return vbool(bool(preds[m]))
+            if m == "to_ascii_lowercase":
+                return Val("char", ch.lower() if ord(ch) < 128 else ch)
+            if m == "to_ascii_uppercase":
+                return Val("char", ch.upper() if ord(ch) < 128 else ch)
         if fn.startswith("core::time::Duration::") and d and all(x.k == "int" for x in d):
             x = d[0].v
             y = d[1].v if len(d) > 1 else None
@@ -769,6 +782,15 @@ class Interp:
             return Val("list", [vint((d[0].v[2 * i] << 8) | d[0].v[2 * i + 1]) for i in range(8)])
         if fn in ("core::str::<impl str>::chars",) and d and d[0].k == "str":
             return Val("iter", [Val("char", ch) for ch in d[0].v])
+        if fn in ("core::str::<impl str>::bytes",) and d and d[0].k == "str":
+            return Val("iter", [vint(x) for x in d[0].v.encode("utf-8")])
+        if fn.startswith("core::num::<impl u8>::is_ascii") and d and d[0].k == "int" and 0 <= d[0].v < 256:
+            ch = chr(d[0].v)
+            preds = {"is_ascii": d[0].v < 128, "is_ascii_alphanumeric": d[0].v < 128 and ch.isalnum(), "is_ascii_alphabetic": d[0].v < 128 and ch.isalpha(), "is_ascii_digit": ch in "0123456789",
+                     "is_ascii_lowercase": "a" <= ch <= "z", "is_ascii_uppercase": "A" <= ch <= "Z", "is_ascii_hexdigit": ch in "0123456789abcdefABCDEF",
+                     "is_ascii_punctuation": d[0].v < 128 and not ch.isalnum() and not ch.isspace() and ch.isprintable(), "is_ascii_whitespace": ch in " \t\n\x0c\r"}
+            if m in preds:
+                return vbool(bool(preds[m]))
         if fn == "core::convert::From::from" and d and d[0].k == "char" and "alloc::string::String" in nm:
             return vstr(d[0].v)
         if m in ("to_ne_bytes", "to_le_bytes", "to_be_bytes") and "<impl u8>" in fn and d and d[0].k == "int":
@@ -867,6 +889,23 @@ class Interp:
         if cur.k == "list" and fn.startswith(("alloc::slice::<impl [T]>::", "core::slice::<impl [T]>::", "alloc::vec::Vec::")):
             if m_ == "reverse":
                 env[tgt] = Val("list", list(cur.v)[::-1], cur.extra)
+                return UNIT
+            if m_ in ("dedup_by_key", "dedup_by", "dedup"):
+                out_, keys_ = [], []
+                for x in cur.v:
+                    if m_ == "dedup":
+                        kx = x.deref()
+                    elif m_ == "dedup_by_key" and len(args) > 1:
+                        kx = self.call_closure(cs, args[1], [Val("ref", x, None)]).deref()
+                    else:
+                        return None
+                    if kx.k not in ("int", "str", "char", "variant", "bool"):
+                        return None
+                    if keys_ and keys_[-1].k == kx.k and keys_[-1].v == kx.v:
+                        continue
+                    out_.append(x)
+                    keys_.append(kx)
+                env[tgt] = Val("list", out_, cur.extra)
                 return UNIT
             if m_ in ("clear",):
                 env[tgt] = Val("list", [], cur.extra)
@@ -1053,6 +1092,14 @@ class Interp:
                 return Val("adt", [Val("list", vals)], ("core::result::Result", "Ok"))
             if dty.startswith(("std::collections::hash::map::HashMap<", "alloc::collections::btree::map::BTreeMap<")) and all(x.deref().k == "tuple" and len(x.deref().v) == 2 for x in items):
                 return Val("list", [x.deref() for x in items], "map")
+            if dty.startswith(("std::collections::hash::set::HashSet<", "alloc::collections::btree::set::BTreeSet<")):
+                uniq = []
+                for x in items:
+                    xd = x.deref()
+                    if xd.k in ("str", "int", "char", "variant", "bool") and any(y.deref().k == xd.k and y.deref().v == xd.v for y in uniq):
+                        continue
+                    uniq.append(x)
+                return Val("list", uniq, "set")
             if "Vec<" in dty or "HashSet<" in dty or "BTreeSet<" in dty:
                 return Val("list", items)
             if dty == "alloc::string::String" and all(x.deref().k in ("str", "char") for x in items):
